@@ -231,6 +231,17 @@ def runSched (j : Json) : Json :=
         let i := b + (k : Int)
         !(e.onShift r i && !e.leaveMark r i) || (usageOf (σ.led.get r i).usage t).isSome ||
           pre.any (fun t' => (usageOf (σ.led.get r i).usage t').isSome) || exhaustedB e σ t r i)))
+  -- C07.list_schedule_in_priority_order, order clause, with the loop's own order: for t0 placed and t placed later or never
+  let todo0 := todoOf e σ0
+  let restT := todo0.filter (fun t => !order.contains t)
+  let ordFail := (List.range order.length).filter (fun k =>
+    let t0 := order.getD k 0
+    let post := order.take k
+    let pre := order.drop (k + 1)
+    !((restT ++ post).all (fun t =>
+      prioLe e t0 t || !(σ.tst t).forward ||
+      (e.taskD t).allDeps.any (fun dp => !(e.taskD dp.target).leaf || !pre.contains dp.target ||
+        (pre.contains dp.target && !(σ.tst dp.target).scheduled)))))
   -- containers: scheduled => children scheduled and dates = min / max; all children scheduled => scheduled
   let conts := (List.range e.tasks.size).filter (fun c => !(e.taskD c).leaf && !(e.taskD c).children.isEmpty)
   let contFail := conts.filter (fun c =>
@@ -248,6 +259,7 @@ def runSched (j : Json) : Json :=
                          ("idle_tasks", Json.num (JsonNumber.fromNat idleTasks.length)), ("idle_fail", Json.num (JsonNumber.fromNat idleFail.length)),
                          ("idle_tasks_unlimited", Json.num (JsonNumber.fromNat idleUnlimited)),
                          ("fit_fail", Json.num (JsonNumber.fromNat fitFail.length)),
+                         ("placed", Json.num (JsonNumber.fromNat order.length)), ("order_fail", Json.num (JsonNumber.fromNat ordFail.length)),
                          ("limit_periods", Json.num (JsonNumber.fromNat limChecks.length)), ("limit_fail", Json.num (JsonNumber.fromNat limFail.length)),
                          ("containers", Json.num (JsonNumber.fromNat conts.length)), ("container_fail", Json.num (JsonNumber.fromNat contFail.length)),
                          ("elig", Json.num (JsonNumber.fromNat eligs.length)), ("elig_scheduled", Json.num (JsonNumber.fromNat eligSched.length)),
